@@ -149,6 +149,16 @@ class Facts:
             if v:
                 if not (self._add_lin(q) and self._add_lin(-q)):
                     return False
+            else:
+                # q != 0 with q of one sign: q >= 1 (or q <= -1), e.g. `if n != 0 { n - 1 }` on an unsigned n
+                qs = self.simplify(q)
+                lo, hi = qs.range(self)
+                if (lo is not None and lo >= 0) or self.sign_known(qs):
+                    if not self._add_lin(qs - 1):
+                        return False
+                elif (hi is not None and hi <= 0) or self.sign_known(-qs):
+                    if not self._add_lin(-qs - 1):
+                        return False
         # conditional facts whose guard became true
         if self.cond:
             keep = []
@@ -419,6 +429,32 @@ class Facts:
                     if lo is not None and lo >= 0:
                         return ("farkas", [(l, repr(cands[i])) for i, l in zip(combo, lam)])
         return None
+
+    def sign_known(self, q, depth=0):
+        """q >= 0 by a cheap argument: entailed linearly, or q = x * r + rest with x a non-negative atom, r entailed
+        non-negative and rest non-negative by the same argument (e.g. width * (clipped.y - full.y) + (clipped.x - full.x))"""
+        if q.const_value() is not None:
+            return q.const_value() >= 0
+        if self.entails_ge0(q, 2, 1) is not None:
+            return True
+        if depth > 2:
+            return False
+        cands = set()
+        for m in q.terms:
+            if len(m) >= 2:
+                cands |= set(m)
+        for x in sorted(cands, key=repr):
+            lo, _ = self.atom_range(x)
+            if lo is None or lo < 0:
+                continue
+            with_x = {m: c for m, c in q.terms.items() if x in m}
+            if any(m.count(x) != 1 for m in with_x):
+                continue
+            r = Poly({tuple(a for a in m if a is not x and a != x): c for m, c in with_x.items()})
+            rest = Poly({m: c for m, c in q.terms.items() if x not in m})
+            if self.entails_ge0(r, 2, 1) is not None and self.sign_known(rest, depth + 1):
+                return True
+        return False
 
     def entails_ge0_split(self, p, max_facts=2, max_coeff=2, use_eq=False):
         """entails_ge0 with a case split over (at most two) comparison atoms that occur inside p - the shape of
